@@ -13,7 +13,7 @@ import numpy as np
 
 from .. import core, parsers
 
-PROPS = ["C11_DiskLayout", "C11_RoundTrip", "C11_ReadLayout", "C11_ConvertPreserves", "C11_ConvertNegates",
+PROPS = ["C11_DiskLayout", "C11_SpellingIrrelevant", "C11_RoundTrip", "C11_ReadLayout", "C11_ConvertPreserves", "C11_ConvertNegates",
          "C11_NoClobber", "C11_DefaultNames"]
 INVS = ["TypeOK", "C11_NegInvolution"]
 NP = {"f64": np.float64, "f32": np.float32, "i16": np.int16, "i8": np.int8}
@@ -32,11 +32,31 @@ def pick_stems(rng, k):
     return rng.sample(STEMS, k)
 
 
-def cfg(init, bases, dt, depth, mode, props=True):
+# interpretation of (denoted element type, spelling) -> the object handed to the data_type option
+ALL_SP = ["type", "dtype", "name", "code", "char", "alias", "builtin"]
+SPELL = {
+    "f64": {"type": np.float64, "dtype": np.dtype("float64"), "name": "float64", "code": "f8", "char": "d",
+            "alias": np.double, "builtin": float},
+    "f32": {"type": np.float32, "dtype": np.dtype("float32"), "name": "float32", "code": "f4", "char": "f", "alias": np.single},
+    "i16": {"type": np.int16, "dtype": np.dtype("int16"), "name": "int16", "code": "i2", "char": "h", "alias": np.short},
+    "i8": {"type": np.int8, "dtype": np.dtype("int8"), "name": "int8", "code": "i1", "char": "b", "alias": np.byte},
+}
+ALIAS_NAMES = {"f64": "double", "f32": "single", "i16": "short", "i8": "byte"}
+
+
+def spelled(dt, sp, variant=0):
+    if sp == "alias" and variant % 2:
+        return ALIAS_NAMES[dt]                  # the alias as a string ("double") instead of the numpy attribute
+    if sp == "code" and variant % 3 == 0:
+        return "<" + SPELL[dt][sp] if dt != "i8" else "|i1"     # with an explicit byte order
+    return SPELL[dt][sp]
+
+
+def cfg(init, bases, dt, depth, mode, props=True, sps=("type",)):
     """bases: list of file stems"""
     lines = ["SPECIFICATION Spec", "CONSTANTS", " InitArrays <- %s" % init,
              " Bases = {%s}" % ", ".join('"%s"' % b for b in bases), " Acts <- AllActs",
-             " TrSet = {TRUE, FALSE}", " DtSet <- %s" % dt, " OwSet = {TRUE, FALSE}", " MaxDepth = %d" % depth,
+             " TrSet = {TRUE, FALSE}", " DtSet <- %s" % dt, " SpSet = {%s}" % ", ".join('"%s"' % x for x in sps), " OwSet = {TRUE, FALSE}", " MaxDepth = %d" % depth,
              ' EmitMode = "%s"' % mode, "INVARIANT TypeOK"]
     if props:
         lines += ["INVARIANT C11_NegInvolution"] + ["PROPERTY %s" % p for p in PROPS]
@@ -140,7 +160,7 @@ def exec_op(op, arr, dirpath, variant):
         if not op["tr"] or variant % 2:
             kw["transpose"] = op["tr"]
         if op["dt"] != "none":
-            kw["data_type"] = NP[op["dt"]]
+            kw["data_type"] = spelled(op["dt"], op["sp"], variant)
         if not op["ow"] or variant % 3 == 0:
             kw["overwrite"] = op["ow"]
         cryomap.write(arr, path, **kw)
@@ -150,7 +170,7 @@ def exec_op(op, arr, dirpath, variant):
         if not op["tr"] or variant % 2:
             kw["transpose"] = op["tr"]
         if op["dt"] != "none":
-            kw["data_type"] = NP[op["dt"]]
+            kw["data_type"] = spelled(op["dt"], op["sp"], variant)
         return cryomap.read(path, **kw)
     if name in ("em2mrc", "mrc2em"):
         kw = {}
@@ -174,7 +194,7 @@ def op_sig(op):
     f = op.get("target") or op.get("file")
     if f:
         sig["ext"] = f.rsplit(".", 1)[-1]
-    for k in ("tr", "dt", "inv", "ow"):
+    for k in ("tr", "dt", "sp", "inv", "ow"):
         if k in op:
             sig[k] = op[k]
     return sig
@@ -347,8 +367,9 @@ def gen_float_case(rng, idx, smax):
         shape[rng.randrange(3)] = shape[0] % smax + 1            # non-cubic
     dtype = rng.choice(DT_NAMES)
     stem, stem2 = rng.sample(STEMS, 2)
-    dt = rng.choice(["none", "none", "none"] + ([x for x in DT_NAMES if x != dtype]))
-    return {"kind": "float", "id": idx, "shape": shape, "dtype": dtype, "dt": dt, "ext": rng.choice(["mrc", "rec", "em"]),
+    dt = rng.choice(["none", "none"] + DT_NAMES)
+    sp = "none" if dt == "none" else rng.choice([x for x in ALL_SP if x != "builtin" or dt == "f64"])
+    return {"kind": "float", "id": idx, "shape": shape, "dtype": dtype, "dt": dt, "sp": sp, "ext": rng.choice(["mrc", "rec", "em"]),
             "tr": rng.random() < 0.75, "inv": rng.random() < 0.5, "explicit_out": rng.random() < 0.5,
             "refuse_api": rng.choice(["write", "convert"]), "mseed": rng.randrange(1 << 30),
             "stem": stem, "stem2": stem2}
@@ -416,12 +437,13 @@ def run_float(ctx, cases):
         if not case["tr"]:
             kw["transpose"] = False
         if case["dt"] != "none":
-            kw["data_type"] = NP[case["dt"]]
+            kw["data_type"] = spelled(case["dt"], case.get("sp", "type"), case["mseed"])
         _, err = core.call_guarded(cryomap.write, arr, path, **kw)
         if err is not None:
             fail_call("write", err)
         else:
-            ev = {"name": "write", "tr": case["tr"], "dtype": case["dtype"], "dt": case["dt"], "shape": list(shape),
+            ev = {"name": "write", "tr": case["tr"], "dtype": case["dtype"], "dt": case["dt"],
+                  "sp": case.get("sp", "none" if case["dt"] == "none" else "type"), "shape": list(shape),
                   "valid": True, "hdr": [0, 0, 0], "mode": "none", "n": 0, "bg_ok": False, "markers": []}
             doc = None
             try:
@@ -470,14 +492,14 @@ def run_float(ctx, cases):
                     ev = {"name": api, "inv": case["inv"], "target_ok": os.path.isfile(target) and
                           sorted(os.listdir(d)) == sorted([os.path.basename(path), os.path.basename(target)]),
                           "valid": True, "hdr_src": [doc["nx"], doc["ny"], doc["nz"]], "hdr_dst": [0, 0, 0],
-                          "mode_src": MODE_OF.get(doc["dtype"]), "mode_dst": "none", "fmt_dst": "none", "bg_ok": False,
+                          "mode_src": MODE_OF.get(doc["dtype"], doc["dtype"]), "mode_dst": "none", "fmt_dst": "none", "bg_ok": False,
                           "markers": []}
                     if ev["target_ok"]:
                         try:
                             dst = parsers.read_map(target)
                             sgn = -1.0 if case["inv"] else 1.0
                             md = marker_map(dst["data"], [sgn * v for v in on_disk])
-                            ev.update(hdr_dst=[dst["nx"], dst["ny"], dst["nz"]], mode_dst=MODE_OF.get(dst["dtype"]),
+                            ev.update(hdr_dst=[dst["nx"], dst["ny"], dst["nz"]], mode_dst=MODE_OF.get(dst["dtype"], dst["dtype"]),
                                       fmt_dst=dst["fmt"],
                                       bg_ok=sum(1 for x in dst["data"] if x == sgn * 3.0) == len(dst["data"]) - nm,
                                       markers=[{"off_src": mm[v][0], "off_dst": md[sgn * v][0], "cnt": md[sgn * v][1]}
@@ -588,12 +610,17 @@ def run(ctx):
     env = {"C11_PARAMS": pp}
     stems = pick_stems(rng, 5)
     one, one3, two = stems[:1], stems[1:2], stems[2:4]
+    # spellings of the data_type option: "builtin" (float) always, the others drawn by the seed
+    others = [x for x in ALL_SP if x != "builtin"]
+    sp_tr = [rng.choice(others), "builtin"] if ctx.quick else ALL_SP
+    sp_sim = rng.sample(others, 2) + ["builtin"]
+    ctx.extra["data_type_spellings"] = {"tr": sp_tr, "sim": sp_sim, "float": ALL_SP}
     ctx.extra["file_stems"] = {"tr": one, "tr3": one3, "deep_sim": two}
     ctx.extra["tr_shapes"] = tr_shapes
     ctx.extra["sim_shapes"] = sim_shapes
 
     if not only or "small" in only:
-        ctx.tlc("MC_MapIO", cfg(ctx.pick("Small9", "Small27"), one, "AllDt", 2, "none"), name="small", env=env,
+        ctx.tlc("MC_MapIO", cfg(ctx.pick("Small9", "Small27"), one, "AllDt", 2, "none", sps=ctx.pick(("type", "name", "builtin"), ALL_SP)), name="small", env=env,
                 workers=4)
         ctx.exhaustive["L1_small_depth2"] = True
         dd = ctx.pick(3, 4)
@@ -601,7 +628,7 @@ def run(ctx):
         ctx.exhaustive["L1_deep_depth%d" % dd] = True
 
     if not only or "tr" in only:
-        res = ctx.tlc("MC_MapIO", cfg("TrInit", one, "AllDt", 2, "tr"), name="tr", env=env, workers=1)
+        res = ctx.tlc("MC_MapIO", cfg("TrInit", one, "AllDt", 2, "tr", sps=sp_tr), name="tr", env=env, workers=1)
         # depth 3 with the default data_type: two files exist, so conversions meet an existing target (refusals)
         res3 = ctx.tlc("MC_MapIO", cfg("Tr3Init", one3, "NoDt", 3, "tr"), name="tr3", env=env, workers=1)
         trs = res.records + res3.records
@@ -638,7 +665,7 @@ def run(ctx):
 
     if not only or "sim" in only:
         nsim = ctx.pick(20, 400)
-        res = ctx.tlc("MC_MapIO", cfg("SimInit", two, "AllDt", 8, "hist", props=False), name="sim", env=env,
+        res = ctx.tlc("MC_MapIO", cfg("SimInit", two, "AllDt", 8, "hist", props=False, sps=sp_sim), name="sim", env=env,
                       simulate=nsim, depth=10, seed=ctx.seed + 1, workers=1)
         seen = set()
         nb = 0
